@@ -423,6 +423,14 @@ def method_cached_arg_by_id(func: CallableT) -> CallableT:
     # get() method of this dictionary, localized for efficiency.
     args_flat_to_exception_get = args_flat_to_exception.get
 
+    # Dictionary mapping the same tuple to the objects identified by that tuple,
+    # keeping those objects alive for as long as a value or exception is cached
+    # for them. Object identifiers are only unique among simultaneously living
+    # objects: were these objects garbage-collected, unrelated objects
+    # subsequently allocated at the same addresses would be silently answered
+    # with the values cached for their predecessors.
+    args_flat_to_args: dict[tuple, tuple] = {}
+
     # ....................{ CLOSURE                        }....................
     @wraps(func)
     def _method_cached(self_or_cls, arg):
@@ -475,6 +483,10 @@ def method_cached_arg_by_id(func: CallableT) -> CallableT:
             if return_value is not SENTINEL:
                 return return_value
             # Else, this callable has yet to be called with these parameters.
+
+            # Pin these parameters *BEFORE* caching anything under their
+            # identifiers (see above).
+            args_flat_to_args[args_flat] = (self_or_cls, arg)
 
             # Attempt to...
             try:
